@@ -68,6 +68,7 @@ type AnnoOpts struct {
 	AllowUnnamed bool // unnamed CDS (GFF3 only), with or without named mature children
 	AllowSlip    bool // join segments that repeat one position (ribosomal slippage)
 	SplitCodons  bool // allow segment boundaries inside codons
+	Isoforms     bool // allow a second CDS with the same name, outer bounds and strand but another exon junction
 }
 
 // MakeAnnotation builds 1..MaxFeats coding features over a genome of length L
@@ -117,6 +118,33 @@ func MakeAnnotation(r *fw.Rng, L int, o AnnoOpts) Annotation {
 			continue
 		}
 		an.Feats = append(an.Feats, f)
+		if o.Isoforms && f.Name != "" && len(f.Segs) >= 2 && r.Chance(0.5) {
+			// an isoform: same name, first base, last base and strand; the first junction
+			// moved by one codon (lengths change by +3/-3, so frame and stop codon are kept)
+			iso := f
+			iso.ID = f.ID + "-iso"
+			iso.Segs = append([][2]int{}, f.Segs...)
+			d := 3
+			if r.Chance(0.5) {
+				d = -3
+			}
+			a, b := iso.Segs[0], iso.Segs[1]
+			a[1] += d
+			b[0] += d
+			firstLen := a[1] - a[0] + 1
+			if f.Strand < 0 {
+				firstLen = iso.Segs[len(iso.Segs)-1][1] - iso.Segs[len(iso.Segs)-1][0] + 1
+				if len(iso.Segs) == 2 {
+					firstLen = b[1] - b[0] + 1
+				}
+			}
+			if a[1] >= a[0] && b[0] <= b[1] && a[1] < b[0]+1 && firstLen >= f.CodonStart && a[1] <= L && b[0] >= 1 {
+				iso.Segs[0], iso.Segs[1] = a, b
+				if isStop(iso) && len(iso.CodingPositions())%3 == 0 {
+					an.Feats = append(an.Feats, iso)
+				}
+			}
+		}
 		if f.Name == "" && r.Chance(0.7) {
 			an.Feats = append(an.Feats, makeChildren(r, f)...)
 		}
